@@ -207,20 +207,24 @@ def applyAction (m : Msg) : Action → Msg
   | .edit c => { m with content := c }
   | .drop => { m with dropped := true }
 
+/-- `if ws_event.message_finished:` — record the message assembled in `buf`, run the hook, re-fragment -/
+def finishMsg (fs : Nat) (pol : Policy) (fromClient injected : Bool) (s : St) (text : Bool) (buf : List Bytes) :
+    St × List Out :=
+  let m0 : Msg := { text := text, fromClient := fromClient, content := buf.flatten,
+                     injected := injected, dropped := false }
+  let idx := s.msgs.length
+  let m := applyAction m0 (pol idx m0)
+  let s1 := { s.setBuf fromClient [[]] with msgs := s.msgs ++ [m] }
+  if m.dropped then (s1, [.hookMsg idx])
+  else if s.ws (!fromClient) = .wopen then
+    (s1, [.hookMsg idx, .sendMsg (!fromClient) text (fragmentize fs (buf.map List.length) text m.content)])
+  else ({ s1 with crashed := true }, [.hookMsg idx, .crash])
+
 /-- a finished/unfinished data frame event: `frame_buf` accumulation, hook, re-fragmentation -/
 def procMsg (fs : Nat) (pol : Policy) (fromClient injected : Bool) (s : St)
     (text : Bool) (data : Bytes) (frameFin msgFin : Bool) : St × List Out :=
   let buf := appendLast (s.buf fromClient) data
-  if msgFin then
-    let m0 : Msg := { text := text, fromClient := fromClient, content := buf.flatten,
-                       injected := injected, dropped := false }
-    let idx := s.msgs.length
-    let m := applyAction m0 (pol idx m0)
-    let s1 := { s.setBuf fromClient [[]] with msgs := s.msgs ++ [m] }
-    if m.dropped then (s1, [.hookMsg idx])
-    else if s.ws (!fromClient) = .wopen then
-      (s1, [.hookMsg idx, .sendMsg (!fromClient) text (fragmentize fs (buf.map List.length) text m.content)])
-    else ({ s1 with crashed := true }, [.hookMsg idx, .crash])
+  if msgFin then finishMsg fs pol fromClient injected s text buf
   else if frameFin then (s.setBuf fromClient (buf ++ [[]]), [])
   else (s.setBuf fromClient buf, [])
 
